@@ -280,6 +280,11 @@ def correspondence(pid, tier, seed, res, lines_extra=None):
     lines += corpus
     if genf:
         lines += genf(rng, tier)
+    n_exh = 0
+    if tier == "thorough" and pid in getattr(G, "EXHAUSTIVE", {}):
+        ex = G.EXHAUSTIVE[pid](rng)
+        n_exh = len(ex)
+        lines += ex
     if lines_extra:
         lines += lines_extra
     t0 = time.time()
@@ -333,7 +338,7 @@ def correspondence(pid, tier, seed, res, lines_extra=None):
     cov = {
         "evaluations": len(lines), "operations": nops, "distinct_nontrivial": distinct,
         "rule": "case lines generated by tools/gen.py:gen_%s from VERIF_SEED plus corpus/%s.txt; a case is non-trivial if the model accepts it (not a malformed line); distinct = distinct case lines" % (pid, pid),
-        "case_kinds": kinds, "corpus_cases": len(corpus), "disagreements": len(dis), "inconclusive_fuel_or_timeout": inconclusive,
+        "case_kinds": kinds, "corpus_cases": len(corpus), "bounded_exhaustive_cases": n_exh, "disagreements": len(dis), "inconclusive_fuel_or_timeout": inconclusive,
         "known_findings_still_failing": still,
         "samples": [{"case": lines[i][:600], "implementation": go[i][:300], "model": mo[i][:300]} for i in
                     ([0, len(lines) // 2, len(lines) - 1] if lines else [])],
